@@ -120,6 +120,41 @@ func checkC11(c *Ctx) (string, []string) {
 			}
 		}
 	}
+	// a decode target reused across loop iterations must be overwritten completely by its Decode
+	c.Rule("C11.fresh-decode-target", "in the protocol decoders (internal/types), a value-method Decode call that sits in a loop and whose receiver is a variable created outside that loop decodes a type whose Decode stores the whole receiver on every successful path — otherwise an element can inherit parts of the previous one and the decoded value re-encodes differently", 10)
+	for _, f0 := range c.SrcFuncs("internal/types") {
+		for _, f := range withClosures(f0) {
+			allInstrs(f, func(in ssa.Instruction) {
+				call, ok := in.(*ssa.Call)
+				if !ok || len(call.Call.Args) < 2 {
+					return
+				}
+				sc := call.Call.StaticCallee()
+				if sc == nil || sc.Name() != "Decode" || sc.Signature.Recv() == nil || !inModule(sc) {
+					return
+				}
+				tgt := call.Call.Args[0]
+				root := tgt
+				for {
+					if fa, isFA := root.(*ssa.FieldAddr); isFA {
+						root = fa.X
+						continue
+					}
+					break
+				}
+				a, isAlloc := root.(*ssa.Alloc)
+				if !isAlloc {
+					return // elements of the slice being filled, fields of the receiver: not a reused temporary
+				}
+				if h, _ := natLoop(call.Block()); h == nil {
+					return
+				}
+				_ = a
+				key := funcKey(f) + " · " + abbr(typeStr(tgt.Type())) + ".Decode into " + abbr(exprStr(tgt, shapeOpts))
+				checkFreshDecodeTarget(c, "C11.fresh-decode-target", key, call, tgt)
+			})
+		}
+	}
 	c.Rule("C11.count-agreement", "for every type, each loop that moves wire data has the same trip-count source in Encode and Decode: either the count is carried by a natural written/read immediately for that field (length-prefixed), or it is the same protocol parameter on both sides (Encode checks len == parameter, Decode loops to the parameter)", 40)
 	if os.Getenv("JAMVERIF_DUMP") != "" {
 		for _, n := range names {
